@@ -397,12 +397,51 @@ def r03_7(run):
                        'not failed (it stays pending, or joins the queue after the outstanding commands were collected)' % attr)
 
 
+def r03_8(run):
+    """submitted after the loss fails exactly once: the failing happens in _maybe_issue_command, right after the pop (the
+    "already disconnected" leg).  So every call with an empty in-flight slot and a non-empty queue must reach the pop: the only
+    tests that may leave the function before it are on the slot and on the queue.  Any other early way out (transport state,
+    a flag) leaves commands queued after the loss in the queue for ever - connectionLost has already run"""
+    mi = U(run, '_maybe_issue_command')
+    g = cfg_of(mi)
+    pnodes = g.nodes_where(lambda n: any(isinstance(a, ast.Call) and dotted(a.func) in ('self.commands.pop', 'self.commands.popleft') for a in node_asts(n)))
+    if not pnodes:
+        raise AnchorVanished('_maybe_issue_command: pop site')
+    after = g.reachable(pnodes, follow_exc=False)
+    k = 0
+    for t in [t for t in g.live if t.kind == 'test' and t not in after and t.ast is not None]:
+        txt = src(t.ast)
+        on_slot_or_queue = 'self.command' in txt        # (self.command / self.commands)
+        # does one leg of this test leave without reaching the pop?
+        for lab in ('T', 'F'):
+            succ = [s_ for l_, s_ in t.succ if l_ == lab]
+            if not succ:
+                continue
+            r = g.reachable(succ, follow_exc=False)
+            if any(p in r for p in pnodes):
+                continue
+            k += 1
+            run.ob('R03.8', mi, t.ast, 'only the in-flight slot and the queue decide whether the next command is taken', on_slot_or_queue, slot='pop-skipped-by:%s' % txt[:30],
+                   message='_maybe_issue_command returns without taking the next command when %s is %s: a command submitted after the loss (connectionLost has run, '
+                           'nothing will call this again) stays queued and its Deferred never fires' % (txt[:60], lab == 'T'))
+    run.floor('R03.8', 'ways out of _maybe_issue_command before the pop', k, 2)
+
+
+def r03_9(run):
+    """nothing is written to the transport after the loss: the only writer is _maybe_issue_command (whose write lies behind the
+    not-disconnected test, R03.3).  A second writer - a QUIT sent "directly" from an error handler - also runs when that handler is
+    the errback connectionLost has just fired (rule R01.1, shared)"""
+    borrow(run, c01.r01_1, 'R03.9')
+
+
 RULES = [
     ('R03.7', 'who-holds: every container queue_command parks a command in is read by connectionLost', r03_7),
     ('R03.1', 'post-condition of connectionLost on every path: one disconnect notification, in-flight and queued commands errbacked, slot cleared, queue emptied', r03_1),
     ('R03.4', 'order inside connectionLost: snapshot after the last observer notification; no partial operation (unpack of split, int()) inside the errback loop', r03_4),
     ('R03.5', 'in-flight slot discipline of _maybe_issue_command (R01.4 borrowed)', r03_5),
     ('R03.6', 'connectionLost consumes no input (call closure); refusals on state the loss changes use the disconnect error', r03_6),
+    ('R03.8', 'who-may-skip: before the pop, _maybe_issue_command leaves only on the in-flight slot / empty queue tests', r03_8),
+    ('R03.9', 'who-may-write: the control transport is written only in _maybe_issue_command (R01.1 borrowed)', r03_9),
     ('R03.2', 'typestate of the in-flight slot in _maybe_issue_command: taken => written or released on every path', r03_2),
     ('R03.3', 'dominance: the transport write lies behind the not-disconnected test', r03_3),
     ('R-SO', 'SingleObserver is guard-and-latch; every .fire receiver is a SingleObserver field', r_so),
@@ -411,6 +450,7 @@ RULES = [
 from ..selftest import M  # noqa: E402
 F = 'txtorcon/torcontrolprotocol.py'
 MUTANTS = [
+    M('no-issue-while-transport-closing', F, "        if self.command:\n            return\n\n        if len(self.commands):", "        if self.command:\n            return\n        if getattr(self.transport, 'disconnecting', False):\n            return\n\n        if len(self.commands):", ['R03.8']),
     M('second-waiting-room', F, ["        d = defer.Deferred()\n        self.commands.append((d, cmd, arg))\n        self._maybe_issue_command()\n        return d", "        self.commands = []\n        for d, cmd, cmd_arg in outstanding:"], ["        d = defer.Deferred()\n        if getattr(self, '_holding', False):\n            self._held.append((d, cmd, arg))\n            return d\n        self.commands.append((d, cmd, arg))\n        self._maybe_issue_command()\n        return d", "        self.commands = []\n        for d, cmd, cmd_arg in outstanding:"], ['R03.7']),
     M('queue-cleared-in-place-and-idle-slot-with-queue', F, ["        self.commands = []\n        for d, cmd, cmd_arg in outstanding:", "        self.defer = None\n        self._maybe_issue_command()\n"], ["        del self.commands[:]\n        for d, cmd, cmd_arg in outstanding:", "        self.defer = None\n        if resp != 'closing connection':\n            self._maybe_issue_command()\n"], ['R03.4']),
     M('loss-flushes-line-buffer', F, "        txtorlog.msg('connection terminated: ' + str(reason))\n", "        txtorlog.msg('connection terminated: ' + str(reason))\n        tail, self._buffer = self._buffer, b''\n        if tail[3:4] == b' ':\n            self.lineReceived(tail)\n", ['R03.6']),
